@@ -107,7 +107,143 @@ func RefReach(tuples []Tuple, s SetRef, maxDist int) (ids map[string]bool, sets 
 
 var l2Kinds = []L2Fault{L2IO, L2Busy, L2BadConn, L2Full, L2Ctx}
 
+// mode bulk: few operations on LARGE sets, sizes around and beyond every
+// power-of-ten-ish boundary an implementation might batch at (the real
+// boundaries are not copied): bulk insert, listing with small and huge page
+// sizes, delete-by-query of a large matching set, bulk delete.
+func runC04Bulk(env *Env, rc *RunCtx) {
+	t := rc.CaseTape
+	sys := env.SysTier()
+	env.Wipe()
+	env.UseConfigCached(plainCfg, Limits{Depth: 100, Width: 1000})
+	theGen.Reseed(uint64(t.Choose(1<<30)), t.Choose(3))
+	sizes := []int{101, 250, 999, 1000, 1001, 1500, 2001, 2500}
+	if rc.Tier == "thorough" {
+		sizes = append(sizes, 3001, 5000, 5003, 7000, 10001)
+	}
+	n := sizes[t.Choose(len(sizes))]
+	m := &Model{}
+	var hist []string
+	w := func() map[string]any { return map[string]any{"history": hist, "rows": n} }
+	var ds []Delta
+	for i := 0; i < n; i++ {
+		x := Tuple{NS: "N0", Obj: fmt.Sprintf("b%d", i%7), Rel: []string{"r0", "r1"}[i%2], Sub: Subject{ID: fmt.Sprintf("u%d", i)}}
+		if i%11 == 0 {
+			x.NS = "N1"
+		}
+		ds = append(ds, Delta{Insert: true, T: x})
+	}
+	for i := 0; i < len(ds); i += 4000 {
+		j := i + 4000
+		if j > len(ds) {
+			j = len(ds)
+		}
+		if r := sys.Transact(ds[i:j]); !r.OK() {
+			rc.Violate("valid-rejected", "transact", fmt.Sprintf("bulk insert of %d failed: %s", j-i, r), w(), -1, nil)
+			return
+		}
+		for _, d := range ds[i:j] {
+			m.Insert(d.T)
+		}
+	}
+	hist = append(hist, fmt.Sprintf("insert %d relationships", n))
+	compare := func(step string) bool {
+		size := []int{0, 1000, 5000, n - 1, n, n + 1, 100000}[t.Choose(7)]
+		if size < 0 {
+			size = 0
+		}
+		rr, all, pages := sys.ListAll(Query{}, size, t.Bool(1, 2))
+		rc.Rec.Execs++
+		hist = append(hist, fmt.Sprintf("list all with page size %d -> %d items in %d pages", size, len(all), pages))
+		if !rr.OK() && len(all) == 0 && len(m.T) > 0 {
+			rc.Violate("valid-rejected", "list", fmt.Sprintf("%s: listing with page size %d failed: %s", step, size, rr), w(), -1, nil)
+			return false
+		}
+		if d := bagDiff(all, m.T); d != "" {
+			rc.Violate("state-diverged", "bulk", fmt.Sprintf("%s: listing (page size %d) has %d items, the model %d: %s", step, size, len(all), len(m.T), d), w(), -1, nil)
+			return false
+		}
+		return true
+	}
+	if !compare("after bulk insert") {
+		return
+	}
+	steps := t.Range(1, 3)
+	for s := 0; s < steps; s++ {
+		switch t.Choose(3) {
+		case 0: // delete-by-query of a large matching set
+			ns := []string{"N0", "N1"}[t.Choose(2)]
+			q := Query{NS: &ns}
+			if t.Bool(1, 2) {
+				rel := []string{"r0", "r1"}[t.Choose(2)]
+				q.Rel = &rel
+			}
+			before := len(m.Match(q))
+			var r Resp
+			if t.Bool(1, 2) {
+				r = sys.DeleteREST(q)
+			} else {
+				r = sys.DeleteGRPC(q)
+			}
+			hist = append(hist, fmt.Sprintf("delete by query %s (%d matching) -> %s", q, before, r))
+			if !r.OK() {
+				rc.Violate("valid-rejected", "delete", hist[len(hist)-1], w(), -1, nil)
+				return
+			}
+			m.DeleteQuery(q)
+			rc.Count("bulk_delete_by_query", 1)
+		case 1: // bulk delete of explicit tuples
+			k := []int{101, 250, 1001}[t.Choose(3)]
+			if k > len(m.T) {
+				k = len(m.T)
+			}
+			if k == 0 {
+				continue
+			}
+			var dd []Delta
+			for i := 0; i < k; i++ {
+				dd = append(dd, Delta{Insert: false, T: m.T[(i*7)%len(m.T)]})
+			}
+			r := sys.Transact(dd)
+			hist = append(hist, fmt.Sprintf("delete %d explicit relationships -> %s", k, r))
+			if !r.OK() {
+				rc.Violate("valid-rejected", "transact", hist[len(hist)-1], w(), -1, nil)
+				return
+			}
+			for _, d := range dd {
+				m.Delete(d.T)
+			}
+			rc.Count("bulk_delete_explicit", 1)
+		default: // a query over one object with many rows
+			ns, obj := "N0", fmt.Sprintf("b%d", t.Choose(7))
+			q := Query{NS: &ns, Obj: &obj}
+			_, ts, _ := sys.ListAll(q, []int{0, 7, 1000}[t.Choose(3)], t.Bool(1, 2))
+			hist = append(hist, fmt.Sprintf("list %s -> %d items", q, len(ts)))
+			if d := bagDiff(ts, m.Match(q)); d != "" {
+				rc.Violate("list-mismatch", "bulk", fmt.Sprintf("list %s differs from the model: %s", q, d), w(), -1, nil)
+				return
+			}
+		}
+		if !compare("after step") {
+			return
+		}
+	}
+	rc.Rec.CaseHash = fmt.Sprintf("%016x", fnv64(fmt.Sprint(hist), 0))
+	rc.Rec.NonTrivial = true
+	rc.Count("bulk_rows", n)
+	if n > 1000 {
+		rc.Count("probe_over_1000_rows", 1)
+	}
+	if rc.WantSample {
+		rc.Rec.Sample = w()
+	}
+}
+
 func runC04(env *Env, rc *RunCtx) {
+	if rc.Mode == "bulk" {
+		runC04Bulk(env, rc)
+		return
+	}
 	t := rc.CaseTape
 	sys := env.SysTier()
 	env.Wipe()
